@@ -648,7 +648,21 @@ func checkTaskExecutor(r *Reporter, p *Prog) {
 					return
 				}
 				pt := Point{b, len(b.Nodes) - 1}
-				if own != nil && (lf.IsVar(be.X, pt, own) || lf.IsVar(be.Y, pt, own)) {
+				// the captured handle itself, or `*p` with p a helper parameter that was handed `&handle`
+				isOwn := func(x ast.Expr) bool {
+					if lf.IsVar(x, pt, own) {
+						return true
+					}
+					if st, isStar := ast.Unparen(x).(*ast.StarExpr); isStar {
+						if re, _ := lf.Resolve(st.X, pt); re != nil {
+							if u, isAddr := ast.Unparen(re).(*ast.UnaryExpr); isAddr && u.Op == token.AND && objOfIdent(info, u.X) == own {
+								return true
+							}
+						}
+					}
+					return false
+				}
+				if own != nil && (isOwn(be.X) || isOwn(be.Y)) {
 					same = append(same, e)
 				} else if isOwnField(be.X) || isOwnField(be.Y) {
 					same = append(same, e)
